@@ -9,7 +9,7 @@ from typing import Dict, List, Optional, Tuple
 from ..astutil import arg_or_kw, body_walk, const_str, const_value, dotted, kwarg, norm, positional_params, short, walk_local
 from ..cfg import cfg_of, branch_raises
 from ..common import returned_exprs
-from ..flow import Defs, ElementOf
+from ..flow import Defs, ElementOf, Expander
 from ..linform import poly, poly_eq, show, p_atom, p_add, p_mul, p_const, p_inv
 
 EXPLANATION = (
@@ -85,6 +85,25 @@ def _ord_sum(node: ast.AST) -> Optional[int]:
 def check_tables(ctx):
     mod = ctx.repo.module(MOD)
     om, cmap = mod.assigns.get("OPERATOR_MAP"), mod.assigns.get("COEFF_MAP")
+    # tables written as comprehensions over literal data are constant-folded to the literal they denote
+    from ..astutil import NotLiteral, fold_literal, literal_to_ast
+
+    def as_literal(v):
+        if v is None or isinstance(v, ast.Dict):
+            return v
+        try:
+            val = fold_literal(v, {}, dict(mod.assigns))
+        except NotLiteral:
+            return v
+        if isinstance(val, dict):
+            lit = literal_to_ast(val)
+            for n in ast.walk(lit):
+                if hasattr(n, "lineno"):
+                    n.lineno = getattr(v, "lineno", 1)
+            return lit
+        return v
+
+    om, cmap = as_literal(om), as_literal(cmap)
     if not isinstance(om, ast.Dict) or not isinstance(cmap, ast.Dict):
         ctx.undecided(R1, f"{MOD}:tables", "OPERATOR_MAP / COEFF_MAP are not dict literals at module level", f"{mod.relpath}:1")
         return None
@@ -154,23 +173,33 @@ def check_term_product(ctx):
     ops_alias = [name for name, ds in d.defs.items() if any(isinstance(x, ast.AST) and norm(x) in ("self._ops.copy()", "dict(self._ops)", "{**self._ops}") for x in ds)]
     for a in ops_alias:
         cur_forms.add(f"{a}[{idx}]")
+    ex = Expander(f.node, keep=ops_alias)
     if len(lookups) != 1:
         ctx.undecided(R2, f.key + ":phase-lookup", f"expected one COEFF_MAP lookup, found {len(lookups)}", f)
     else:
-        key = lookups[0].slice
+        key = ex.expand(lookups[0].slice)
         ok = isinstance(key, ast.BinOp) and isinstance(key.op, ast.Add) and norm(key.left) in cur_forms and norm(key.right) == op
         swapped = isinstance(key, ast.BinOp) and isinstance(key.op, ast.Add) and norm(key.right) in cur_forms and norm(key.left) == op
-        ctx.check(ok, R2, f.key + ":phase-lookup", "phase key = receiver's operator + incoming operator (left factor first)", f"phase looked up as {short(key)}" + (": operands swapped, so every product of two different Paulis on one qubit gets the opposite sign" if swapped else ": not <operator of self at the index> + <incoming operator>"), f"{f.module.relpath}:{lookups[0].lineno}")
+        if ok or swapped:
+            ctx.check(ok, R2, f.key + ":phase-lookup", "phase key = receiver's operator + incoming operator (left factor first)", f"phase looked up as {short(key)}: operands swapped, so every product of two different Paulis on one qubit gets the opposite sign", f"{f.module.relpath}:{lookups[0].lineno}")
+        else:
+            ctx.undecided(R2, f.key + ":phase-lookup", f"cannot recognise the phase key {short(key)} as a concatenation of the receiver's operator at the index and the incoming operator", f"{f.module.relpath}:{lookups[0].lineno}")
     olook = [n for n in body_walk(f.node) if isinstance(n, ast.Subscript) and dotted(n.value) == "OPERATOR_MAP"]
     if len(olook) == 1:
-        key = olook[0].slice
+        key = ex.expand(olook[0].slice)
         parts = []
         if isinstance(key, ast.BinOp) and isinstance(key.op, ast.Add):
             for side in (key.left, key.right):
                 if isinstance(side, ast.Call) and dotted(side.func) == "ord" and len(side.args) == 1:
                     parts.append(norm(side.args[0]))
         ok = len(parts) == 2 and ((parts[0] in cur_forms and parts[1] == op) or (parts[1] in cur_forms and parts[0] == op))
-        ctx.check(ok, R2, f.key + ":operator-lookup", "resulting operator looked up from the two operators at this qubit", f"OPERATOR_MAP key {short(key)} is not ord(<receiver's operator>) + ord(<incoming operator>)", f"{f.module.relpath}:{olook[0].lineno}")
+        same_twice = len(parts) == 2 and parts[0] == parts[1]
+        if ok:
+            ctx.ok(R2, f.key + ":operator-lookup", "resulting operator looked up from the two operators at this qubit", f"{f.module.relpath}:{olook[0].lineno}")
+        elif same_twice:
+            ctx.violation(R2, f.key + ":operator-lookup", f"OPERATOR_MAP key {short(key)} uses the same operator twice instead of the receiver's and the incoming one", f"{f.module.relpath}:{olook[0].lineno}")
+        else:
+            ctx.undecided(R2, f.key + ":operator-lookup", f"cannot recognise the OPERATOR_MAP key {short(key)} as ord(<receiver's operator>) + ord(<incoming operator>)", f"{f.module.relpath}:{olook[0].lineno}")
     else:
         ctx.undecided(R2, f.key + ":operator-lookup", f"expected one OPERATOR_MAP lookup, found {len(olook)}", f)
     # phase is multiplied into the running coefficient, which starts as self.coefficient
@@ -664,7 +693,8 @@ def check_simplify(ctx):
     setd = [n for n in ast.walk(gl) if isinstance(n, ast.Call) and isinstance(n.func, ast.Attribute) and n.func.attr == "setdefault"]
     ctx.check(bool(appends) and (bool(news) or bool(setd)), R5, f.key + ":group-members", "every term joins its group", "a term is not added to its group on some branch (its coefficient would be lost)", f"{f.module.relpath}:{gl.lineno}")
     # merge loop
-    merge = [l for l in loops if l is not gl and "values()" in norm(l.iter) or (l is not gl and "items()" in norm(l.iter))]
+    sx = Expander(f.node)
+    merge = [l for l in loops if l is not gl and ("values()" in sx.text(l.iter) or "items()" in sx.text(l.iter))]
     if len(merge) != 1:
         ctx.undecided(R5, f.key + ":merge", "cannot find the loop over the groups", f)
         return
@@ -679,8 +709,12 @@ def check_simplify(ctx):
     ctx.check(ok_sum, R5, f.key + ":coefficient-sum", "merged coefficient = sum of the coefficients of all terms of the group", "the merged coefficient is not the plain sum over the whole group of like terms", f"{f.module.relpath}:{ml.lineno}")
     # the merged term keeps the group's operators
     copies = [n for n in ast.walk(ml) if isinstance(n, ast.Call) and isinstance(n.func, ast.Attribute) and n.func.attr == "copy" and arg_or_kw(n, 0, "new_coefficient") is not None]
-    ok_copy = bool(copies) and all(grp in d.atoms(c.func.value) or norm(c.func.value).startswith(grp) for c in copies)
-    ctx.check(ok_copy, R5, f.key + ":merged-term", "merged term = a term of the group with the summed coefficient", "the merged term is not a copy of a member of the same group with the new coefficient", f"{f.module.relpath}:{ml.lineno}")
+    mx = Expander(f.node, keep=[grp])
+    ok_copy = bool(copies) and all(grp in {n.id for n in ast.walk(mx.expand(c.func.value)) if isinstance(n, ast.Name)} for c in copies)
+    if copies:
+        ctx.check(ok_copy, R5, f.key + ":merged-term", "merged term = a term of the group with the summed coefficient", f"the merged term {short(copies[0])} is not a copy of a member of the same group with the new coefficient", f"{f.module.relpath}:{ml.lineno}")
+    else:
+        ctx.undecided(R5, f.key + ":merged-term", "cannot find where the merged term is built (expected <member of the group>.copy(new_coefficient=...))", f"{f.module.relpath}:{ml.lineno}")
     # dropping only under isclose(x, 0)
     tests = [n for n in ast.walk(ml) if isinstance(n, ast.If)]
     for i, t in enumerate(tests):
